@@ -116,11 +116,8 @@ impl FunctionExpression for FormatIntFn {
 fn format_radix(x: i64, radix: u32) -> String {
     let mut result: VecDeque<char> = VecDeque::new();
 
-    let (mut x, negative) = if x < 0 {
-        (-x as u64, true)
-    } else {
-        (x as u64, false)
-    };
+    let negative = x < 0;
+    let mut x = x.unsigned_abs();
 
     loop {
         let m = (x % u64::from(radix)) as u32; // max of 35
